@@ -15,6 +15,8 @@ if len(sys.argv) > 1 and os.path.exists(sys.argv[1]):
 root = '/verif/seeded'
 for sid in sorted(os.listdir(root)):
     d = os.path.join(root, sid)
+    if not os.path.isdir(d):
+        continue
     am = json.load(open(os.path.join(d, 'agent_meta.json'))) if os.path.exists(os.path.join(d, 'agent_meta.json')) else {}
     conf = ''
     if os.path.exists(os.path.join(d, 'confirm.log')):
